@@ -202,6 +202,30 @@ mod verif_search {
             }
         }
         for len in 0..96u32 { for _ in 0..40 { let d: Vec<u8> = (0..len).map(|_| rng.next() as u8).collect(); n += 1; if let Some(m) = check_c05(&d) { fail(&d, m); } } }
+        // deep hash chains: long runs / short periods, then a match far back (the estimators give up on candidates
+        // whose chains get too deep; every way of giving up must be an Err)
+        let fixed_lit = |b: &mut Bits, c: u32| { if c < 144 { b.code(0x30 + c, 8) } else { b.code(0x190 + (c - 144), 9) } };
+        for &run in &[4200u32, 8300, 9000, 20000, 33100] {
+            for &period in &[1u32, 2, 3, 7] {
+                for &(len, back) in &[(3u32, 500u32), (4, 500), (258, 500), (3, 0), (4, 4097), (3, 8197), (258, 32768)] {
+                    let dist = if back == 0 { run } else if back <= 500 { run - back } else { back };
+                    if dist == 0 || dist > run || dist > 32768 { continue; }
+                    let mut b = Bits::new();
+                    b.put(1, 1); b.put(1, 2);
+                    for i in 0..run { fixed_lit(&mut b, 97 + (i % period)); }
+                    let mut q = 28; while LB[q] > len { q -= 1; }
+                    let sym = 257 + q as u32;
+                    if sym < 280 { b.code(sym - 256, 7) } else { b.code(0xC0 + (sym - 280), 8) }
+                    b.put(len - LB[q], LE[q]);
+                    let mut dcode = 29; while DB[dcode] > dist { dcode -= 1; }
+                    b.code(dcode as u32, 5); b.put(dist - DB[dcode], DE[dcode]);
+                    for c in [120u32, 121, 122] { fixed_lit(&mut b, c); }
+                    b.code(0, 7);
+                    let p = b.pending(); b.put(0, p);
+                    n += 1; if let Some(m) = check_c05(&b.out) { fail(&b.out, m); }
+                }
+            }
+        }
         println!("SEARCH-DONE property=c05 no failing input in {} inputs", n);
     }
 
